@@ -5,6 +5,7 @@
 //! when the true result lies outside [0, 2^W).
 
 pub mod boxed;
+mod extra;
 pub mod fixed;
 pub mod forms;
 pub mod gens;
@@ -48,5 +49,6 @@ fn subchecks(_ctx: &Ctx) -> Vec<SubCheck> {
     v.push(SubCheck::new("boxed/boxed-rhs/1..=40", 120_000, boxed::boxed_boxed_case(40)).tape(240).thorough(10));
     boxed_uint!(v, 25_000; 1, 2, 3, 4, 8, 16);
     v.push(SubCheck::new("boxed/prim-rhs/u8..u128", 120_000, boxed::boxed_prim_case(40)).tape(120).thorough(10));
+    v.extend(extra::subchecks(_ctx));
     v
 }
